@@ -57,7 +57,17 @@ def record_pts(pid, path, pcfg, flags, tid0, rng, desc, traces, meta, strings, o
                 strings.extend(pcfg.grammar[t][i]['values'])
         if pid == 'C04' and (not is_m or m_judged):
             tid += 1
-            traces.append({'tid': tid, 'kind': 'pt', 'groups': groups, 'lines': [expand.cps(s) for s in lines], 'count': n})
+            rp = pp = 0
+            if b is not None:
+                try:
+                    reported = pcfg._find_prob([tuple(x) for x in pt], b['prob'])
+                    product = b['prob']
+                    for t_, i_ in pt:
+                        product *= pcfg.grammar[t_][i_]['prob']
+                    rp, pp = (1, 1) if abs(reported - product) <= 1e-12 * max(abs(product), 1e-300) else (1, 2)
+                except Exception:
+                    rp, pp = 0, 0           # (not observable in this version of the code)
+            traces.append({'tid': tid, 'kind': 'pt', 'groups': groups, 'lines': [expand.cps(s) for s in lines], 'count': n, 'rp': rp, 'pp': pp})
             meta[tid] = {'ruleset': desc, 'flags': flags, 'pt': pt, 'markov_levels': list(pcfg.grammar[pt[0][0]][pt[0][1]]['values']) if is_m else None}
         if is_m and pid == 'C04' and m_judged and len(lines) >= 3:
             # the same Markov pre-terminal interrupted after k strings (quit flag set while the k-th string is written) and
@@ -86,7 +96,7 @@ def record_pts(pid, path, pcfg, flags, tid0, rng, desc, traces, meta, strings, o
                     n2, got2 = -1, []
                 rest = lines[len(got1):]
                 tid += 1
-                traces.append({'tid': tid, 'kind': 'pt', 'groups': [dict(groups[0], v=[expand.cps(x) for x in rest])],
+                traces.append({'tid': tid, 'kind': 'pt', 'rp': 0, 'pp': 0, 'groups': [dict(groups[0], v=[expand.cps(x) for x in rest])],
                                'lines': [expand.cps(s_) for s_ in got2], 'count': n2})
                 meta[tid] = {'ruleset': desc, 'flags': flags, 'pt': pt, 'check': 'Markov pre-terminal interrupted after %d strings and restored' % len(got1),
                              'reported_by_first_part': n1, 'written_by_first_part': len(got1), 'reported_by_restore': n2, 'written_by_restore': len(got2)}
